@@ -320,7 +320,27 @@ func drawFlow(t *rapid.T, check string) *Case {
 	strGranted := map[uint32]int64{}
 	curIWS := iws
 	for i := 0; i < m; i++ {
-		switch rapid.IntRange(0, 6).Draw(t, "play") {
+		switch rapid.IntRange(0, 7).Draw(t, "play") {
+		case 7:
+			// a further (small) download opened in the middle of the window events: a stream
+			// that starts its life on a connection where others were reset or are blocked
+			// (and that is handed whatever per-stream state the server recycles)
+			if n > 20 {
+				continue
+			}
+			id := next
+			next += 2
+			tag := fmt.Sprintf("c0-l%d", id)
+			body := bodyBytes(tag, rapid.IntRange(0, 5000).Draw(t, "latesz"))
+			p.Backend.Resp[tag] = &RespPlan{Status: 200, Body: body}
+			aux.Bodies[tag] = body
+			aux.Streams[id] = tag
+			downIDs = append(downIDs, id)
+			all = append(all, id)
+			totalDown += len(body)
+			fields := [][2]string{{":method", "GET"}, {":scheme", "https"}, {":authority", "fc.verif.test"}, {":path", "/" + tag}, {"x-tag", tag}}
+			write(HeadersFrames(id, enc.Block(fields), true, nil, -1, nil)...)
+			aux.Events = append(aux.Events, flowEvent{Kind: "open", Stream: id, Write: nwrite - 1})
 		case 0, 1:
 			inc := int64([]int{1, 2, 100, 16384, 65535, 1 << 20}[rapid.IntRange(0, 5).Draw(t, "cinc")])
 			if connGranted+inc > 1<<30 {
@@ -427,6 +447,8 @@ func drawFlow(t *rapid.T, check string) *Case {
 			ev = append(ev, fmt.Sprintf("SETTINGS(iws=%d,mfs=%d)", e.IWS, e.MFS))
 		case "rst":
 			ev = append(ev, fmt.Sprintf("RST(%d)", e.Stream))
+		case "open":
+			ev = append(ev, fmt.Sprintf("OPEN(%d)", e.Stream))
 		}
 	}
 	var sizes []string
@@ -711,7 +733,7 @@ func init() {
 		}
 		return drawFlow(t, "C12")
 	},
-		Rule: "a raw-frame client opens 1-8 (5%: 20-120) streams: downloads of 0..300000 bytes (boundary sizes 16384/16385/65535/65536, streamed by the back-end in chunks; 20% without Content-Length and with the end of the response held back until the controller releases it, so that END_STREAM travels in an empty DATA frame queued after further window events) and uploads of 0..120000 bytes in DATA frames of seeded sizes with padding (20% answered by the back-end without reading the body; 15% longer than their declared content-length, so that the server resets the stream and has to discard what follows), with SETTINGS_INITIAL_WINDOW_SIZE in {0,1,100,16384,65535,2^20} and MAX_FRAME_SIZE variants; then 0-10 window events: connection / stream WINDOW_UPDATEs of 1..2^20, INITIAL_WINDOW_SIZE changes up and down (driving open windows negative), MAX_FRAME_SIZE changes, client RST_STREAM mid-body; final grants that suffice for everything; 5%: a connection WINDOW_UPDATE overflowing 2^31-1. All three write schedulers, fences (incl. the write fence that keeps a frame write in flight, 30% of runs), response segmentation by draw. Oracle refwin: every DATA frame within the connection window, the stream window (largest INITIAL_WINDOW_SIZE among the last acknowledged and all later written SETTINGS, plus every WINDOW_UPDATE written before the frame was received) and the maximum frame size; all bodies complete and byte-identical after the final grants; overflow rejected with FLOW_CONTROL_ERROR; connection-level credit not returned after all uploads are consumed or discarded <= 16 KiB and never negative. Non-trivial: the server sent DATA. Distinct: distinct controller action-label sequences."})
+		Rule: "a raw-frame client opens 1-8 (5%: 20-120) streams: downloads of 0..300000 bytes (boundary sizes 16384/16385/65535/65536, streamed by the back-end in chunks; 20% without Content-Length and with the end of the response held back until the controller releases it, so that END_STREAM travels in an empty DATA frame queued after further window events) and uploads of 0..120000 bytes in DATA frames of seeded sizes with padding (20% answered by the back-end without reading the body; 15% longer than their declared content-length, so that the server resets the stream and has to discard what follows), with SETTINGS_INITIAL_WINDOW_SIZE in {0,1,100,16384,65535,2^20} and MAX_FRAME_SIZE variants; then 0-10 window events: connection / stream WINDOW_UPDATEs of 1..2^20, further small downloads opened in between, INITIAL_WINDOW_SIZE changes up and down (driving open windows negative), MAX_FRAME_SIZE changes, client RST_STREAM mid-body; final grants that suffice for everything; 5%: a connection WINDOW_UPDATE overflowing 2^31-1. All three write schedulers, fences (incl. the write fence that keeps a frame write in flight, 30% of runs), response segmentation by draw. Oracle refwin: every DATA frame within the connection window, the stream window (largest INITIAL_WINDOW_SIZE among the last acknowledged and all later written SETTINGS, plus every WINDOW_UPDATE written before the frame was received) and the maximum frame size; all bodies complete and byte-identical after the final grants; overflow rejected with FLOW_CONTROL_ERROR; connection-level credit not returned after all uploads are consumed or discarded <= 16 KiB and never negative. Non-trivial: the server sent DATA. Distinct: distinct controller action-label sequences."})
 	register(&CheckDef{ID: "C20", Level: "exploration", Engine: "A", Draw: func(t *rapid.T) *Case { return drawFlow(t, "C20") },
 		Rule: "in-situ monitor: the C12 workload (bodies under client-controlled windows, RST_STREAM mid-body, INITIAL_WINDOW_SIZE and MAX_FRAME_SIZE changes) plus PRIORITY frames with arbitrary, circular and exclusive dependencies on open, idle and closed streams, against round-robin / priority (seeded MaxClosedNodesInTree, MaxIdleNodesInTree, ThrottleOutOfOrderWrites) / random schedulers installed through http2.Server.NewWriteScheduler behind a monitor that checks every OpenStream / CloseStream / AdjustStream / Push / Pop against a list-based model: each pushed frame popped exactly once unless its stream was closed first, per-stream order, control before stream data, popped DATA pieces <= stream window, connection window and peer's maximum frame size (read before the pop through an injected accessor) and concatenating to the original, Pop()==false only when nothing is sendable, priority tree rooted at 0 / acyclic / links consistent after every operation. Operation sequences are those the serve loop produces under simulated schedules, not arbitrary interface-level sequences. Non-trivial: the server sent DATA. Distinct: distinct controller action-label sequences."})
 }
